@@ -1,0 +1,55 @@
+//go:build verif
+
+package pmtiles
+
+import "sync"
+
+// VerifEv is one observation of the server's event loop (build tag verif only).
+type VerifEv struct {
+	Kind                    string // req | resp | purge | evict
+	Name, Etag              string
+	Off, Len                uint64
+	Total, NCache, NList    int
+	NInflightKeys, NWaiters int
+	Detail                  string // req: hit|join|miss + purge tag; resp: ok|fail + size + value etag
+}
+
+var verifMu sync.Mutex
+var verifLog []VerifEv
+var verifEnabled bool
+
+// VerifStartLog clears the log and starts recording.
+func VerifStartLog() {
+	verifMu.Lock()
+	verifLog = nil
+	verifEnabled = true
+	verifMu.Unlock()
+}
+
+// VerifTakeLog returns the events recorded so far.
+func VerifTakeLog() []VerifEv {
+	verifMu.Lock()
+	defer verifMu.Unlock()
+	out := append([]VerifEv{}, verifLog...)
+	return out
+}
+
+// VerifLogLen is the number of events recorded so far.
+func VerifLogLen() int {
+	verifMu.Lock()
+	defer verifMu.Unlock()
+	return len(verifLog)
+}
+
+func verifEvent(kind string, key cacheKey, total, ncache, nlist int, inflight map[cacheKey][]request, detail string) {
+	verifMu.Lock()
+	defer verifMu.Unlock()
+	if !verifEnabled {
+		return
+	}
+	w := 0
+	for _, v := range inflight {
+		w += len(v)
+	}
+	verifLog = append(verifLog, VerifEv{kind, key.name, key.etag, key.offset, key.length, total, ncache, nlist, len(inflight), w, detail})
+}
